@@ -176,7 +176,7 @@ static void print_result(uint64_t seed, const RunResult &r) {
 
 int worker_main(int argc, char **argv, const Harness &h) {
   std::string prop, replay;
-  uint64_t seed = 1, base = 1, stride = 1, offset = 0, max_runs = ~0ull;
+  uint64_t seed = 1, base = 1, stride = 1, offset = 0, max_runs = ~0ull, first_index = 0;
   double budget = 0;
   bool thorough = false, log = false, emit = false, have_seed = false, statelog = false;
   for (int i = 1; i < argc; i++) {
@@ -187,6 +187,7 @@ int worker_main(int argc, char **argv, const Harness &h) {
     else if (a == "--base") base = strtoull(nxt(), nullptr, 10);
     else if (a == "--stride") stride = strtoull(nxt(), nullptr, 10);
     else if (a == "--offset") offset = strtoull(nxt(), nullptr, 10);
+    else if (a == "--first-index") first_index = strtoull(nxt(), nullptr, 10);
     else if (a == "--budget-s") budget = atof(nxt());
     else if (a == "--max-runs") max_runs = strtoull(nxt(), nullptr, 10);
     else if (a == "--thorough") thorough = true;
@@ -229,7 +230,7 @@ int worker_main(int argc, char **argv, const Harness &h) {
   int64_t sim_us = 0;
   int samples = 0;
   int rc = 0;
-  for (uint64_t i = 0; i < max_runs; i++) {
+  for (uint64_t i = first_index; i < max_runs; i++) {
     if (budget > 0 && wall_now() - t0 > budget) break;
     uint64_t s = mix_seed(base, offset + i * stride);
     printf("RUN %llu\n", (unsigned long long)s);
